@@ -8,7 +8,9 @@ OK=0; BAD=0
 for id in $IDS; do
   WT=/tmp/sens_$id
   git -C /repo worktree add -q --detach $WT HEAD 2>/dev/null || { echo "$id: cannot create worktree"; continue; }
-  if ! git -C $WT apply /verif/seeded/$id/patch.diff 2>/dev/null; then echo "$id: patch does not apply to HEAD (skipped)"; git -C /repo worktree remove --force $WT; continue; fi
+  # stored patches were made against earlier HEADs: fall back to reduced context, then to fuzzy patch(1)
+  if ! git -C $WT apply /verif/seeded/$id/patch.diff 2>/dev/null && ! git -C $WT apply -C1 /verif/seeded/$id/patch.diff 2>/dev/null && ! (cd $WT && patch -s -p1 -F3 < /verif/seeded/$id/patch.diff >/dev/null 2>&1); then
+    echo "$id: patch does not apply to HEAD (skipped)"; git -C /repo worktree remove --force $WT; continue; fi
   CHECKS=$(/venv/bin/python -c "
 import json,re
 m=json.load(open('/verif/seeded/$id/meta.json'))
@@ -17,7 +19,7 @@ print(' '.join(dict.fromkeys(re.match(r'(C\d\d)',c).group(1).lower() for c in m[
   for c in $CHECKS; do
     TEMPEST_SRC=$WT TSIM_NO_EVIDENCE=1 TSIM_REPLAY_DIR=/tmp/sens_replays/$id ./check $c --no-minimise > /tmp/sens_$id.$c.log 2>&1
     rc=$?
-    if [ $rc -eq 1 ] && grep -q '^VIOLATION' /tmp/sens_$id.$c.log; then HIT="$HIT $c"; fi
+    if [ $rc -eq 1 ] && grep -q '^VIOLATION' /tmp/sens_$id.$c.log; then HIT="$HIT $c"; [ -n "$FIRST_ONLY" ] && break; fi
   done
   if [ -n "$HIT" ]; then echo "$id: caught by$HIT"; OK=$((OK+1)); else echo "$id: NOT CAUGHT by [$CHECKS]"; BAD=$((BAD+1)); fi
   git -C /repo worktree remove --force $WT
